@@ -130,15 +130,15 @@ Proof. exact read_packet_inv. Qed.
 Print Assumptions C06_decoded_invariant.
 
 (* ---- the independent codec, for PUBLISH under MQTT 3.1 / 3.1.1: for every well-formed value
-   (wf_packet: QoS, DUP, packet identifier, topic name per MQTT 4.7, lengths) whose topic has no
-   U+FFFD, Pack and the specification encoder write the same bytes, the specification decoder
+   (wf_packet: QoS, DUP, packet identifier, topic name per MQTT 4.7, lengths)
+   Pack and the specification encoder write the same bytes, the specification decoder
    reads them back to the value, and so does ReadPacket.  (All other packet types and v5: checked
    on every run by the suites `codec` and `cenc`, not proved.) *)
 Theorem C06_spec_agree_publish3 :
   forall (v : N) (dup : bool) (qos : N) (retain : bool) (topic : str) (pid : N) (payload : str),
     (v = 3 \/ v = 4) ->
     let b := BPublish v dup qos retain topic pid payload None in
-    wf_packet b = true -> has_fffd topic = false ->
+    wf_packet b = true ->
     pack b = Ok (spec_encode b)
     /\ spec_decode v (spec_encode b) = SOk (b, [])
     /\ exists p', read_packet v (spec_encode b) = Ok (p', []) /\ p_body p' = b.
@@ -167,7 +167,7 @@ Theorem C06_topic_filter_exact :
 Proof. exact filter_bytes_exact. Qed.
 Print Assumptions C06_topic_filter_exact.
 (* the other equivalences with MQTT 4.7 / 1.5.4 are still false: the empty topic name is accepted;
-   with mustUTF8 the topic predicates refuse U+FFFD (and accept U+0000 when called directly) *)
+   called directly (not after ValidUTF8) the topic predicates accept U+0000 *)
 Theorem C06_topics_refuted :
   ~ name_equiv /\ ~ name_bytes_equiv /\ ~ filter_equiv /\ ~ v5_filter_equiv.
 Proof.
@@ -194,22 +194,22 @@ Theorem C06_utf8_verdict :
 Proof. exact utf8_verdict. Qed.
 Print Assumptions C06_utf8_verdict.
 (* ValidTopicName(true, s) and ValidTopicFilter(true, s), as the decoder uses them (after
-   readUTF8String(true, ..) accepted s): the specification's verdict on every s without U+FFFD
-   (and, for names, non-empty) *)
+   readUTF8String(true, ..) accepted s): the specification's verdict on every such s
+   (for names: non-empty) *)
 Theorem C06_topic_name_decoder_partial :
-  forall (s : str), valid_utf8_impl s = Ok true -> kf_t_fffd s = false -> kf_t_name_empty s = false ->
+  forall (s : str), valid_utf8_impl s = Ok true -> kf_t_name_empty s = false ->
     valid_topic_name_impl true s = Ok (spec_topic_name s).
 Proof. exact name_decoder_partial. Qed.
 Print Assumptions C06_topic_name_decoder_partial.
 Theorem C06_topic_filter_decoder_partial :
-  forall (s : str), valid_utf8_impl s = Ok true -> kf_t_fffd s = false ->
+  forall (s : str), valid_utf8_impl s = Ok true ->
     valid_topic_filter_impl true s = Ok (spec_topic_filter s).
 Proof. exact filter_decoder_partial. Qed.
 Print Assumptions C06_topic_filter_decoder_partial.
 (* the same for ValidV5Topic: MQTT 4.7.1 filters and 4.8.2 shared subscriptions
    ($share/{ShareName}/{filter}, ShareName non-empty without "/", "+", "#") *)
 Theorem C06_topic_v5_decoder_partial :
-  forall (s : str), valid_utf8_impl s = Ok true -> kf_t_fffd s = false ->
+  forall (s : str), valid_utf8_impl s = Ok true ->
     valid_v5_topic_impl s = Ok (spec_v5_filter s).
 Proof. exact v5_decoder_partial. Qed.
 Print Assumptions C06_topic_v5_decoder_partial.
@@ -238,8 +238,9 @@ Example C06_nonvacuous_findings :
   spec_decode 5 [130; 7; 0; 1; 0; 0; 1; 97; 48] = SBad SRetainHandling /\
   (* PUBACK with reserved flag bits set *)
   (exists p, read_packet 4 [79; 2; 0; 1] = Ok (p, [])) /\ spec_decode 4 [79; 2; 0; 1] = SBad SFlags /\
-  (* a topic name with U+FFFD: ValidUTF8 accepts it, ValidTopicName(true, ..) does not *)
-  valid_utf8_impl [239; 191; 189] = Ok true /\ valid_topic_name_impl true [239; 191; 189] = Ok false.
+  (* an empty Response Topic property is accepted (v5 PUBLISH "a", properties 08 00 00) *)
+  (exists p, read_packet 5 [48; 7; 0; 1; 97; 3; 8; 0; 0] = Ok (p, [])) /\
+  spec_decode 5 [48; 7; 0; 1; 97; 3; 8; 0; 0] = SBad STopicName.
 Proof. vm_compute. repeat split; eexists; reflexivity. Qed.
 
 (* the witnesses of the repaired defects now behave as the specification says *)
@@ -255,6 +256,13 @@ Example C06_repaired :
   (* U+FFFD is valid UTF-8; "+a" and "$share/g/+a" are not filters *)
   valid_utf8_impl [239; 191; 189] = Ok true /\ valid_topic_filter_impl true [43; 97] = Ok false /\
   valid_v5_topic_impl [36; 115; 104; 97; 114; 101; 47; 103; 47; 43; 97] = Ok false /\
+  (* U+FFFD in a topic name, a filter, a share name *)
+  valid_topic_name_impl true [239; 191; 189] = Ok true /\ valid_topic_filter_impl true [239; 191; 189; 47; 35] = Ok true /\
+  valid_v5_topic_impl [36; 115; 104; 97; 114; 101; 47; 239; 191; 189; 47; 239; 191; 189] = Ok true /\
+  (exists p, read_packet 4 [48; 5; 0; 3; 239; 191; 189] = Ok (p, [])) /\
+  (* a PUBLISH with an empty topic name is refused (0x82), unless a v5 Topic Alias stands in for it *)
+  read_packet 4 [48; 3; 0; 0; 97] = Err PROTOCOL /\ read_packet 5 [48; 3; 0; 0; 0] = Err PROTOCOL /\
+  (exists p, read_packet 5 [48; 6; 0; 0; 3; 35; 0; 7] = Ok (p, [])) /\
   (* binary password (v3.1.1 CONNECT, password FF) and binary AuthData (v5 AUTH) are accepted *)
   (exists p, read_packet 4 [16; 19; 0; 4; 77; 81; 84; 84; 4; 194; 0; 60; 0; 1; 99; 0; 1; 117; 0; 1; 255] = Ok (p, [])) /\
   (exists p, read_packet 5 [240; 10; 24; 8; 21; 0; 1; 109; 22; 0; 1; 255] = Ok (p, [])).
